@@ -16,7 +16,12 @@ EXPLANATION = (
     "must be an attribute that __setstate__ rebuilds, after restoring the dict, with an expression whose normal form equals the one in "
     "__init__ (a derived attribute such as the namedtuple type); an attribute bound to a dynamically created class must be removed "
     "(it cannot be pickled); a value it *transforms* (d[k] = f(..)) is followed into f: truncating the storage at anything but the fill level "
-    "loses valid rows. __setstate__ may, besides rebuilding removed attributes, only reset lazily recomputed caches; any other write to "
+    "loses valid rows (the bound is read through single-assignment locals and expanded helpers; a cursor that is also used elsewhere in the value is not read). "
+    "An ordinary attribute that is removed and reset to its constructor value must be scratch data: a cross-call liveness analysis (upward-exposed reads per method "
+    "on the statement CFG, summarised through self.m(), super().m() and the methods of classes that hold the object in a field) reports a violation when one call "
+    "stores run-time data into it and a public method reads it before writing it on a path that passes no test over a reset attribute (a recompute guard is no witness); "
+    "it is accepted when no method writes it after construction or every reader has written it first; element stores, `out=` arguments, unresolved callees and accesses "
+    "through other receivers leave it undecided. __setstate__ may, besides rebuilding removed attributes, only reset lazily recomputed caches; any other write to "
     "restored state - directly or through a method whose transitive write set (effect summary through self.<attr> types) is non-empty - "
     "changes what was saved. (R2) the pickle helper dumps the unfiltered state half of nnx.split(net) (provenance of the dumped object through "
     "reaching definitions and device moves) and load merges the loaded object with the given graphdef on every path to the return. "
@@ -30,7 +35,7 @@ EXPLANATION = (
 )
 TRUSTED = ["pickle round-trips plain attributes (ints, numpy arrays, OrderedDict, PriorityBuffer objects)", "nnx.split / nnx.merge are inverse for a given graphdef", "Orbax StandardCheckpointer.save / restore(path, target) are inverse for a given target structure"]
 RULES = {
-    "R1-pickling-symmetry": "__getstate__ works on a copy, removes exactly derived / unpicklable attributes, transforms nothing lossy; __setstate__ restores the dict first, rebuilds removed attributes as __init__ does and writes nothing else (lazy caches excepted)",
+    "R1-pickling-symmetry": "__getstate__ works on a copy, removes exactly derived / unpicklable attributes and scratch data no later call reads, transforms nothing lossy; __setstate__ restores the dict first, rebuilds removed attributes as __init__ does and writes nothing else (lazy caches excepted)",
     "R2-pickle-helper": "save_pickle dumps the unfiltered state of nnx.split(net); load_pickle returns nnx.merge(graphdef, loaded state) on every path",
     "R3-checkpoints": "checkpoint writers save the unfiltered state and wait; restore_checkpoint restores into the model's own state structure and merges graphdef with the restored state only",
 }
@@ -297,6 +302,335 @@ def _state_evidence(repo, cq, attr):
     return False
 
 
+NON_ENTRY = ("__init__", "__new__", "__setstate__", "__getstate__", "__reduce__", "__reduce_ex__", "__del__", "__init_subclass__", "__class_getitem__")
+
+
+def _own_parts(node):
+    """The expressions a CFG node itself evaluates (not the bodies of the compound statement it heads)."""
+    a = node.ast
+    if a is None or node.kind in ("entry", "exit"):
+        return []
+    if node.kind == "stmt":
+        if isinstance(a, ast.ExceptHandler):
+            return [a.type] if a.type is not None else []
+        return [a]
+    if node.kind == "test":
+        if hasattr(a, "test"):
+            return [a.test]
+        if hasattr(a, "subject"):
+            return [a]            # match statement: patterns may bind / read attributes; read as a whole
+        return [a]
+    if node.kind == "for":
+        return [a.iter, a.target]
+    if node.kind == "with":
+        return [i.context_expr for i in a.items] + [i.optional_vars for i in a.items if i.optional_vars is not None]
+    return [a]
+
+
+class _AttrLife:
+    """Is attribute `A` of class C *carried state* - does its value at the end of one call matter to a later call?
+
+    Dataflow over the statement CFG of every method, interprocedural through `self.m()`, `super().m()` and `self.<field>.m()` of the classes
+    that hold a C in a field: a method has an *upward-exposed read* of A when a path from its entry reaches a read of A without passing a write
+    of A.  Two readings of every node: the definite one (explicit reads / plain stores, callees summarised the same way) gives evidence; the
+    possible one (calls that are not resolved, the object handed on, nested functions) only ever makes the result undecided."""
+
+    def __init__(self, repo, cq, attr, dropped=()):
+        self.repo, self.cq, self.attr = repo, cq, attr
+        self.dropped = set(dropped) | {attr}      # attributes that come back with their constructor value
+        self.family = list(dict.fromkeys(repo.mro(cq) + repo.subclasses(cq)))
+        self.holders = []
+        self.unread_classes = []
+        for mi in repo.modules.values():
+            for name, node in mi.defs.items():
+                if not isinstance(node, ast.ClassDef):
+                    continue
+                q = repo.canonical(f"{mi.name}.{name}", node)
+                try:
+                    types = _attr_types(repo, q)
+                except AnalysisError:
+                    self.unread_classes.append(q)
+                    continue
+                for f, t in sorted(types.items()):
+                    if t in self.family and (q, f) not in self.holders:
+                        self.holders.append((q, f))
+        self.memo = {}
+        self.writers = []         # (method, statement) that store run-time data into A
+        self.known_nodes = set()  # ids of the attribute / call nodes read by a summary
+
+    # -- one method ------------------------------------------------------------------------------------------------------
+    def _resolve(self, K, mname, after=None):
+        if after is None:
+            return self.repo.method(K, mname)
+        mro = self.repo.mro(K)
+        if after not in mro:
+            return None
+        for c in mro[mro.index(after) + 1:]:
+            m = self.repo.method(c, mname, inherited=False)
+            if m:
+                return m
+        return None
+
+    def _stored_class(self, K, name):
+        """`self.<name>` is an instance attribute that every constructor binds to a freshly created class (namedtuple, ..), not a method."""
+        if ("init", K) not in self.memo:
+            try:
+                self.memo[("init", K)] = _init_attr_values(self.repo, K)
+            except AnalysisError:
+                self.memo[("init", K)] = None
+        iv = self.memo[("init", K)]
+        if iv is None:
+            return False
+        return name in iv and isinstance(iv[name][0], ast.Call) and _is_dynamic_class(iv[name][0])
+
+    def _field_type(self, K, P):
+        if ("types", K) not in self.memo:
+            try:
+                self.memo[("types", K)] = _attr_types(self.repo, K)
+            except AnalysisError:
+                self.memo[("types", K)] = {}
+        return self.memo[("types", K)].get(P[5:])
+
+    def summary(self, K, P, mname, after=None):
+        """(ue_must, ue_may, dw_must, w_may) of `mname` called on an object of class K, the attribute being `P.A` there; None: not resolved."""
+        m = self._resolve(K, mname, after)
+        if m is None:
+            return None
+        owner, fn = m
+        key = (K, P, owner, mname)
+        if key in self.memo:
+            return self.memo[key]
+        self.memo[key] = (False, True, False, True)      # while being computed (recursion): nothing is known
+        pp = positional_params(fn)
+        if not pp or pp[0] != "self" or any(isinstance(d_, ast.Name) and d_.id in ("staticmethod", "classmethod") for d_ in fn.decorator_list):
+            self.memo[key] = (False, False, False, False) if not pp or pp[0] != "self" else (False, True, False, True)
+            return self.memo[key]
+        A, full = self.attr, f"{P}.{self.attr}"
+        cfg = CFG(fn)
+        locals_ = {n.id for n in ast.walk(fn) if isinstance(n, ast.Name) and isinstance(n.ctx, ast.Store)} | (set(param_names(fn)) - {"self"})
+        rd, mrd, kl, mkl = {}, {}, {}, {}
+        wr_local = []
+        for node in cfg.nodes:
+            parts = _own_parts(node)
+            if not parts:
+                continue
+            r = mr = k = mk = False
+            if node.kind == "def":
+                if any((isinstance(n, ast.Name) and n.id == "self") for n in ast.walk(node.ast)):
+                    mr = mk = True
+                rd[node.id], mrd[node.id], kl[node.id], mkl[node.id] = r, mr, k, mk
+                continue
+            aug_t = node.ast.target if node.kind == "stmt" and isinstance(node.ast, ast.AugAssign) else None
+            plain_store = False
+            # occurrences that overwrite (part of) the stored object rather than use its contents: the base of an element store `A[i] = v`,
+            # an `out=A[..]` argument, the receiver of `A.fill(..)` / `A.clear()`; and the operands of a recompute guard inside a
+            # read-modify-write (`A = A if A is not None else f()`, `A = A or f()`): possible reads, not evidence of one
+            partial = set()
+            if node.kind == "stmt" and isinstance(node.ast, ast.Assign):
+                for t in node.ast.targets:
+                    for tt in (t.elts if isinstance(t, (ast.Tuple, ast.List)) else [t]):
+                        base = tt
+                        while isinstance(base, ast.Subscript):
+                            base = base.value
+                        if base is not tt:
+                            partial.add(id(base))
+                if any(isinstance(t, ast.Attribute) and dotted(t) == full for t in node.ast.targets):
+                    for g_ in ast.walk(node.ast.value):
+                        if isinstance(g_, (ast.IfExp, ast.BoolOp)):
+                            partial |= {id(x) for x in ast.walk(g_) if isinstance(x, ast.Attribute)}
+            for part in parts:
+                for c_ in ast.walk(part):
+                    if isinstance(c_, ast.Call):
+                        for kw in c_.keywords:
+                            if kw.arg == "out":
+                                partial |= {id(x) for x in ast.walk(kw.value) if isinstance(x, ast.Attribute)}
+                        if isinstance(c_.func, ast.Attribute) and c_.func.attr in ("fill", "clear"):
+                            partial.add(id(c_.func.value))
+            for part in parts:
+                inner = {id(n.value) for n in ast.walk(part) if isinstance(n, ast.Attribute)}
+                for n in ast.walk(part):
+                    if isinstance(n, ast.Attribute) and dotted(n) == full and id(n) in partial:
+                        self.known_nodes.add(id(n))
+                        mr = mk = True
+                    elif isinstance(n, ast.Attribute) and dotted(n) == full:
+                        self.known_nodes.add(id(n))
+                        if isinstance(n.ctx, ast.Load) or n is aug_t:
+                            r = True
+                            if n is aug_t:
+                                mk = True
+                        elif isinstance(n.ctx, ast.Store):
+                            plain_store = True
+                        else:
+                            mr = mk = True
+                    elif isinstance(n, ast.Attribute) and dotted(n) in (f"{P}.__dict__", "self.__dict__"):
+                        mr = mk = True
+                    elif P != "self" and isinstance(n, ast.Attribute) and dotted(n) == P and not isinstance(n.ctx, ast.Load):
+                        mr = mk = True        # the field that holds the object is rebound
+                    elif P != "self" and isinstance(n, ast.Attribute) and dotted(n) == P and id(n) not in inner:
+                        mr = mk = True        # the held object is handed on / returned as a whole
+                    if not isinstance(n, ast.Call):
+                        continue
+                    args = list(n.args) + [kw.value for kw in n.keywords]
+                    if any(_bare_name(a_.value if isinstance(a_, ast.Starred) else a_, "self") for a_ in args):
+                        mr = mk = True        # the object is handed to a callee
+                    if not isinstance(n.func, ast.Attribute):
+                        continue
+                    recv = n.func.value
+                    rdot = dotted(recv)
+                    sm = "none"
+                    if rdot == "self":
+                        sm = self.summary(K, P, n.func.attr)
+                    elif P != "self" and rdot == P:
+                        T = self._field_type(K, P)
+                        sm = self.summary(T, "self", n.func.attr) if T else None
+                    elif isinstance(recv, ast.Call) and dotted(recv.func) == "super" and not recv.args and not recv.keywords:
+                        sm = self.summary(K, P, n.func.attr, after=owner)
+                    elif rdot is not None and (rdot == full or rdot.startswith(full + ".")) and n.func.attr in MUTATORS:
+                        mk = True
+                        wr_local.append((node.id, f"{owner}.{mname}", short(n, 60)))
+                    if sm == "none":
+                        continue
+                    self.known_nodes.add(id(n.func))
+                    if sm is None:
+                        if rdot == "self" and self._stored_class(K, n.func.attr):
+                            continue          # `self.Batch(..)`: a class kept in an attribute is instantiated; it does not see the object
+                        mr = mk = True        # a method this check cannot find
+                        continue
+                    r = r or sm[0]
+                    mr = mr or sm[1]
+                    mk = mk or sm[3]
+                    if sm[2] and not sm[1] and not r:
+                        k = True
+            a = node.ast
+            if plain_store:
+                mk = True
+                simple = node.kind == "stmt" and isinstance(a, (ast.Assign, ast.AnnAssign)) and getattr(a, "value", None) is not None
+                if simple and not r and not mr:
+                    k = True
+                if simple:
+                    v = a.value
+                    if any((isinstance(x, ast.Name) and x.id in locals_) or (isinstance(x, ast.Attribute) and dotted(x) and dotted(x).startswith("self.")) for x in ast.walk(v)):
+                        wr_local.append((node.id, f"{owner}.{mname}", short(a, 60)))
+                else:
+                    mr = True                 # `for self.a in ..` / `with .. as self.a`: not read
+            elif node.kind == "stmt" and isinstance(a, (ast.Assign, ast.AugAssign)) and (r or mr):
+                # element stores / augmented assignment: the attribute is updated in place with run-time data
+                tgs = a.targets if isinstance(a, ast.Assign) else [a.target]
+                for t in tgs:
+                    base = t
+                    while isinstance(base, ast.Subscript):
+                        base = base.value
+                    if dotted(base) == full and (base is not t or isinstance(a, ast.AugAssign)):
+                        mk = True
+                        wr_local.append((node.id, f"{owner}.{mname}", short(a, 60)))
+            rd[node.id], mrd[node.id], kl[node.id], mkl[node.id] = r, mr, k, mk
+        kills_def = {i for i, v in kl.items() if v}
+        kills_may = {i for i, v in mkl.items() if v} | kills_def
+        # a store of run-time data counts when it can still be there at the end of the call (not when every path overwrites it again, e.g. resets it)
+        for nid_, where_, txt_ in wr_local:
+            if cfg.paths_avoiding(nid_, cfg.exit, kills_def - {nid_}, feasible=False) is not None:
+                self.writers.append((where_, txt_))
+        # a branch on an attribute that comes back with its constructor value (a validity flag, the attribute itself) may route the reloaded
+        # object to a recomputation: a path through such a test is no witness; a read *in* such a test is one unless an arm of the test
+        # rewrites the attribute on every path (a recompute guard)
+        dtests = set()
+        for node in cfg.nodes:
+            if node.kind == "test":
+                for part in _own_parts(node):
+                    if any(isinstance(x, ast.Attribute) and dotted(x) in {f"{P}.{d_}" for d_ in self.dropped} for x in ast.walk(part)):
+                        dtests.add(node.id)
+        ue_must = None
+        for i in sorted(rd):
+            if rd[i]:
+                if i in dtests and any(cfg.paths_avoiding(i, cfg.exit, kills_def, feasible=False, first_label=lab) is None for lab in {l_ for _, l_ in cfg.nodes[i].succ}):
+                    continue
+                p_ = cfg.paths_avoiding(cfg.entry, i, (kills_may | dtests) - {i})
+                if p_ is not None:
+                    ue_must = (i, p_)
+                    break
+        ue_may = any((rd[i] or mrd[i]) and cfg.paths_avoiding(cfg.entry, i, kills_def - {i}, feasible=False) is not None for i in rd)
+        dw_must = cfg.paths_avoiding(cfg.entry, cfg.exit, kills_def, feasible=False) is None
+        w_may = bool(kills_may)
+        self.memo[key] = (bool(ue_must), ue_may or bool(ue_must), dw_must, w_may)
+        if ue_must:
+            self.memo[key + ("witness",)] = (loc(self.repo.cls(owner)._module, cfg.nodes[ue_must[0]].ast), short(cfg.nodes[ue_must[0]].ast if cfg.nodes[ue_must[0]].kind == "stmt" else _own_parts(cfg.nodes[ue_must[0]])[0], 60))
+        return self.memo[key]
+
+    # -- the whole class -------------------------------------------------------------------------------------------------
+    def _entries(self):
+        """(class, prefix, method name) of every method that code outside the object can call."""
+        out = []
+        ctxs = [(K, "self") for K in self.family]
+        for H, f in self.holders:
+            for H2 in [H] + self.repo.subclasses(H):
+                ctxs.append((H2, f"self.{f}"))
+        for K, P in list(dict.fromkeys(ctxs)):
+            names = []
+            for c in self.repo.mro(K):
+                for ch in self.repo.cls(c).body:
+                    if isinstance(ch, ast.FunctionDef) and ch.name not in names:
+                        names.append(ch.name)
+            for nm in names:
+                out.append((K, P, nm))
+        return out
+
+    def decide(self):
+        """('carried', witness text) | ('scratch', text) | ('unknown', text)."""
+        try:
+            return self._decide()
+        except AnalysisError:
+            raise
+        except (KeyError, IndexError, AttributeError, TypeError, ValueError, RecursionError) as e:
+            raise AnalysisError(f"{self.cq}: liveness of `{self.attr}` could not be computed ({type(e).__name__}: {e}) (unrecognised form)")
+
+    def _decide(self):
+        must, may = [], []
+        for K, P, nm in self._entries():
+            if nm in NON_ENTRY:
+                continue
+            sm = self.summary(K, P, nm)
+            if sm is None:
+                continue
+            public = not nm.startswith("_") or (nm.startswith("__") and nm.endswith("__"))
+            owner = self._resolve(K, nm)[0]
+            if sm[0] and public:
+                w = self.memo.get((K, P, owner, nm, "witness"))
+                must.append((f"{K.rsplit('.', 1)[1]}.{nm}", w))
+            if sm[1] and public:
+                may.append(f"{K.rsplit('.', 1)[1]}.{nm}")
+        # accesses of an attribute of this name (and calls of the private methods) that no summary has read: other receivers, other classes
+        foreign = []
+        private_may = {nm for (K, P, nm) in self._entries() if nm.startswith("_") and not nm.endswith("__") and (self.summary(K, P, nm) or (0, 0))[1]}
+        for mi in self.repo.modules.values():
+            for n in ast.walk(mi.tree):
+                if isinstance(n, ast.Attribute) and id(n) not in self.known_nodes:
+                    if n.attr == self.attr and not (dotted(n) == f"self.{self.attr}" and self._in_state_protocol(n)):
+                        foreign.append(loc(mi, n))
+                    elif n.attr in private_may and not (dotted(n.value) == "self"):
+                        foreign.append(loc(mi, n))
+        writers = sorted(set(self.writers))
+        written = any((self.summary(K, P, nm) or (0, 0, 0, 1))[3] for K, P, nm in self._entries() if nm not in ("__init__", "__setstate__", "__getstate__"))
+        if not written and not foreign and not self.unread_classes:
+            return "scratch", "no method writes it after construction: it always holds its constructor value"
+        if must and writers:
+            m0 = must[0]
+            return "carried", f"`{writers[0][1]}` in {writers[0][0].rsplit('.', 2)[-2]}.{writers[0][0].rsplit('.', 1)[1]} stores run-time data; {m0[0]} reads it before writing it (`{m0[1][1] if m0[1] else ''}`{' at ' + m0[1][0] if m0[1] else ''})"
+        if not may and not foreign and not self.unread_classes:
+            return "scratch", ("no method stores run-time data into it" if not writers else "every method that reads it has written it before on every path")
+        why = f"possible cross-call reads {may[:3]}" if may else (f"accesses this check does not read at {foreign[:2]}" if foreign else f"classes not read {self.unread_classes[:2]}")
+        return "unknown", why
+
+    def _in_state_protocol(self, n):
+        """The access sits in the constructor / __getstate__ / __setstate__ of a class of the family: it sees the fresh or the pickled value, not carried state."""
+        p_ = getattr(n, "_parent", None)
+        while p_ is not None and not isinstance(p_, (ast.FunctionDef, ast.AsyncFunctionDef, ast.Lambda)):
+            p_ = getattr(p_, "_parent", None)
+        if not isinstance(p_, ast.FunctionDef) or p_.name not in ("__init__", "__setstate__", "__getstate__"):
+            return False
+        c_ = getattr(p_, "_parent", None)
+        return isinstance(c_, ast.ClassDef) and any(self.repo.cls(q) is c_ for q in self.family)
+
+
 def _slice_bounds(repo, mi, e, params=None, depth=0):
     """Upper bounds of slices `x[:B]` applied in expression e, following calls into repo functions (argument substitution by name)."""
     out = []
@@ -321,6 +655,82 @@ def _slice_bounds(repo, mi, e, params=None, depth=0):
                 for st in f.body:
                     out += _slice_bounds(repo, f._module, st, sub, depth + 1)
     return out
+
+
+def _local_temps(fn, exclude=()):
+    """name -> value of the locals of `fn` that are assigned exactly once, by a plain top-level statement (not under a branch or loop), and are not
+    parameters: they hold that value wherever they are read afterwards."""
+    stores = {}
+    for n in ast.walk(fn):
+        if isinstance(n, ast.Name) and isinstance(n.ctx, (ast.Store, ast.Del)):
+            stores[n.id] = stores.get(n.id, 0) + 1
+        elif isinstance(n, (ast.Global, ast.Nonlocal)):
+            for nm in n.names:
+                stores[nm] = stores.get(nm, 0) + 2
+    out = {}
+    for x in fn.body:
+        if isinstance(x, ast.Assign) and len(x.targets) == 1 and isinstance(x.targets[0], ast.Name):
+            nm = x.targets[0].id
+            if stores.get(nm) == 1 and nm not in param_names(fn) and nm not in exclude and not any(isinstance(c_, (ast.NamedExpr, ast.Await, ast.Yield, ast.YieldFrom)) for c_ in ast.walk(x.value)):
+                out[nm] = x.value
+    return out
+
+
+def _subst_temps(e, temps, depth=0):
+    """Expression e with the single-assignment locals replaced by their values (bounded depth)."""
+    if not temps or not any(isinstance(n, ast.Name) and n.id in temps for n in ast.walk(e)):
+        return e
+
+    class _S(ast.NodeTransformer):
+        def visit_Name(self_inner, n):
+            if isinstance(n.ctx, ast.Load) and n.id in temps and depth < 5:
+                return _subst_temps(clone(temps[n.id]), temps, depth + 1)
+            return n
+
+        def visit_comprehension(self_inner, n):
+            return self_inner.generic_visit(n)
+    # names bound inside e (comprehension / lambda variables) shadow a local of the same name
+    bound = {n.id for n in ast.walk(e) if isinstance(n, ast.Name) and isinstance(n.ctx, ast.Store)} | {a.arg for n in ast.walk(e) if isinstance(n, ast.Lambda) for a in n.args.args}
+    if bound & set(temps):
+        temps = {k: v for k, v in temps.items() if k not in bound}
+        if not temps:
+            return e
+    return ast.fix_missing_locations(ast.copy_location(_S().visit(clone(e)), e))
+
+
+def _ring_cursors(repo, cq):
+    """Attributes that are write cursors of a ring: `insert_idx` (the documented name) and every attribute some method advances modulo the
+    capacity (`self.X = (self.X + k) % self.buffer_size`): it wraps to the front while the rows behind it stay valid."""
+    out = {"insert_idx"}
+    for c in repo.mro(cq):
+        for meth in repo.cls(c).body:
+            if not isinstance(meth, ast.FunctionDef):
+                continue
+            for s in ast.walk(meth):
+                if isinstance(s, ast.Assign) and len(s.targets) == 1 and isinstance(s.targets[0], ast.Attribute) and dotted(s.targets[0].value) == "self" \
+                        and isinstance(s.value, ast.BinOp) and isinstance(s.value.op, ast.Mod) and dotted(s.value.right) == "self.buffer_size" \
+                        and any(isinstance(n_, ast.Attribute) and dotted(n_) == f"self.{s.targets[0].attr}" for n_ in ast.walk(s.value.left)):
+                    out.add(s.targets[0].attr)
+    return out
+
+
+def _cursor_elsewhere(v, cursors):
+    """The cursor occurs in v other than as the upper bound of a `[:cursor]` slice or as an argument handed to a function."""
+    parent = {}
+    for n in ast.walk(v):
+        for ch in ast.iter_child_nodes(n):
+            parent[id(ch)] = n
+    for n in ast.walk(v):
+        if isinstance(n, ast.Attribute) and dotted(n) in cursors:
+            p_ = parent.get(id(n))
+            if isinstance(p_, ast.Slice) and p_.upper is n and p_.lower is None and p_.step is None:
+                continue
+            if isinstance(p_, ast.Call) and any(a_ is n for a_ in p_.args):
+                continue
+            if isinstance(p_, ast.keyword):
+                continue
+            return True
+    return False
 
 
 def _const_names(repo, cq, e):
@@ -399,9 +809,15 @@ def _getstate(ck, repo, nf, cq, gq, g, init_vals):
     _need_self(g, f"{gq}.__getstate__")
     body = [x for x in g.body if not (isinstance(x, ast.Expr) and isinstance(x.value, ast.Constant))]
     rets = [x for x in ast.walk(g) if isinstance(x, ast.Return)]
-    ck.need(len(rets) == 1 and isinstance(rets[0].value, (ast.Name, ast.DictComp)), f"{gq}.__getstate__: expected a single `return <dict name>` (unrecognised idiom)")
+    direct_copy = len(rets) == 1 and rets[0].value is not None and ast.unparse(rets[0].value) in COPY_FORMS
+    ck.need(len(rets) == 1 and (isinstance(rets[0].value, (ast.Name, ast.DictComp)) or direct_copy), f"{gq}.__getstate__: expected a single `return <dict name>` (unrecognised idiom)")
     removed, transformed = [], {}
-    if isinstance(rets[0].value, ast.DictComp):
+    if direct_copy:
+        # `return dict(self.__dict__)`: a copy of the instance dict, nothing removed
+        ck.need(rets[0] is body[-1], f"{gq}.__getstate__: `{short(rets[0], 70)}` (unrecognised idiom)")
+        dn = "<returned dict>"
+        defs = [ast.copy_location(ast.Assign(targets=[ast.Name(id=dn, ctx=ast.Store())], value=rets[0].value), rets[0])]
+    elif isinstance(rets[0].value, ast.DictComp):
         # `return {k: v for k, v in self.__dict__.items() if k != "Batch"}`: a copy without the named keys
         fc = _filtered_copy(repo, cq, gmi, rets[0].value)
         ck.need(fc is not None and rets[0] is body[-1], f"{gq}.__getstate__: `{short(rets[0], 70)}` (unrecognised idiom)")
@@ -458,6 +874,9 @@ def _getstate(ck, repo, nf, cq, gq, g, init_vals):
             names = {n.id for n in ast.walk(x) if isinstance(n, ast.Name)}
             if dn in names or any(isinstance(n, ast.Attribute) and dotted(n) and dotted(n).startswith("self.") for n in ast.walk(x) if isinstance(getattr(n, "ctx", None), ast.Store)):
                 raise AnalysisError(f"{gq}.__getstate__: `{short(x, 70)}` manipulates the pickled state in a way this check does not model")
+    # single-assignment locals of __getstate__ (`n = self.insert_idx`, `rows = self.buffer`, also the temporaries of an expanded helper) are read with their value
+    ltemps = _local_temps(g, {dn})
+    transformed = {k_: _subst_temps(v_, ltemps) for k_, v_ in transformed.items()}
     # a dict that is only an alias of the live one: evidence of a difference only when something is then removed from it / replaced in it
     edits = bool(removed) or any(ast.unparse(v_) != f"self.{k_}" for k_, v_ in transformed.items())
     if is_copy or edits:
@@ -488,12 +907,15 @@ def _getstate(ck, repo, nf, cq, gq, g, init_vals):
         same = ast.unparse(v) == f"self.{k}"
         if same:
             continue
-        bounds = _slice_bounds(repo, gmi, v)
+        bounds = [_subst_temps(b, ltemps) for b in _slice_bounds(repo, gmi, v)]
         sc = Scope(None, gmi, {}, gq)
         btxt = [nf.poly(b, sc, None).canon() for b in bounds]
         # evidence: the bound is the write cursor itself (normal form), not merely an expression in which the cursor occurs
         # and what is cut is the stored attribute itself (the value put under its own key is computed from it)
-        bad = [b for b in btxt if b == "self.insert_idx"]
+        cursors = {"self." + c_ for c_ in _ring_cursors(repo, cq)}
+        bad = [b for b in btxt if b in cursors]
+        if bad and _cursor_elsewhere(v, cursors):
+            raise AnalysisError(f"{gq}.__getstate__: the pickled `{k}` is cut at the write cursor and the cursor is used elsewhere in `{short(v, 50)}` (the rows behind it may be saved as well): not read (unrecognised form)")
         reads_own = k in init_vals and any(isinstance(n_, ast.Attribute) and dotted(n_) == f"self.{k}" for n_ in ast.walk(v))
         if bad and reads_own:
             ck.ob("R1-pickling-symmetry", site, f"transformed:{k}", False, f"d['{k}'] = {short(v, 70)} truncates at {bad}",
@@ -722,6 +1144,14 @@ def r1_buffers(ck, repo, nf):
                     # a derived value (cache) that is dropped from the pickled state and recomputed from the restored attributes: whether
                     # the recomputed value equals the one at save time is a question about the class's invariants, not decided here
                     if ast.unparse(_unwrap_iter(v)) == ast.unparse(_unwrap_iter(init_vals[a][0])):
+                        # reset to the constructor value: harmless for scratch data (every reader writes it first) and for lazily recomputed
+                        # caches; for *carried* state - one call stores run-time data, a later call reads it - the value at save time is lost
+                        if not (_is_lazy_cache(repo, cq, a) and isinstance(v, ast.Constant) and v.value is None):
+                            verdict, wtxt = _AttrLife(repo, cq, a, [r_ for r_ in removed if r_ in init_vals and not _is_dynamic_class(init_vals[r_][0])]).decide()
+                            if verdict == "unknown":
+                                raise AnalysisError(f"{cq}: `{a}` is dropped from the pickled state and reset to its constructor value; whether a later call needs the saved value is not decided: {wtxt} (unrecognised form)")
+                            ck.ob("R1-pickling-symmetry", cq, f"dropped-is-scratch:{a}", verdict == "scratch", f"`{a}` is removed by __getstate__ and reset to `{short(v, 40)}`: {wtxt}",
+                                  "" if verdict == "scratch" else f"`{a}` carries information from one call to a later one and is dropped from the pickled state: a buffer saved between the two calls continues differently after reload (the later call works on the constructor value instead of the saved one)", loc(omi, x))
                         ck.ob("R1-pickling-symmetry", cq, f"rebuilt:{a}", oko, f"self.{a} = {short(v, 60)} as in __init__", "" if oko else "the attribute is rebuilt from self.* before the pickled attributes are restored", loc(omi, x))
                         continue
                     raise AnalysisError(f"{cq}: `{a}` is dropped from the pickled state and recomputed as `{short(v, 50)}` (a derived value; __init__ sets `{short(init_vals[a][0], 30)}`): equality with the saved value is not decided")
@@ -747,7 +1177,7 @@ def r1_buffers(ck, repo, nf):
                 ok = cache and same_as_init
                 if cache and not same_as_init:
                     raise AnalysisError(f"{cq}: __setstate__ sets the lazily recomputed `{a}` to `{short(v, 40)}`, not to its constructor value: equality with the saved value is not decided (unrecognised form)")
-                if not cache and not _state_evidence(repo, cq, a):
+                if not cache and not _state_evidence(repo, cq, a) and _AttrLife(repo, cq, a, [r_ for r_ in list(removed) + list(rebuilt) if r_ in init_vals and not _is_dynamic_class(init_vals[r_][0])]).decide()[0] != "carried":
                     raise AnalysisError(f"{cq}: __setstate__ assigns `{a}` (`{short(v, 40)}`): neither a lazily recomputed cache nor recognisably state of the buffer (unrecognised form)")
                 ck.ob("R1-pickling-symmetry", cq, f"setstate-write:{a}", ok, f"self.{a} = {short(v, 50)}" + (" (lazily recomputed cache reset to its constructor value)" if ok else ""),
                       "" if ok else f"__setstate__ overwrites `{a}`, which was saved: the reloaded object differs from the saved one", loc(omi, x))
@@ -1109,6 +1539,7 @@ def run(ck, repo: Repo, tier: str):
 
 _F, _S = "rl_blox/blox/replay_buffer.py", "rl_blox/util/serialize.py"
 _PE = "rl_blox/blox/probabilistic_ensemble.py"
+_PB_END = "    def reset_max_priority(self, current_len: int):\n        \"\"\"Recalculate the maximum priority.\"\"\"\n        if current_len > 0:\n            self.max_priority = np.max(self.priority[:current_len])\n"
 MUTANTS = [
     {"id": "c19-batch-not-deleted", "file": _F, "rule": "R1", "nth": 0, "find": "        d = dict(self.__dict__)\n        del d[\"Batch\"]\n        return d", "replace": "        d = dict(self.__dict__)\n        return d"},
     {"id": "c19-mask-deleted", "file": _F, "rule": "R1", "nth": 1, "find": "        d = dict(self.__dict__)\n        del d[\"Batch\"]\n        return d", "replace": "        d = dict(self.__dict__)\n        del d[\"Batch\"]\n        del d[\"mask_\"]\n        return d"},
@@ -1137,6 +1568,16 @@ MUTANTS = [
     {"id": "c19-restore-fixed-directory", "file": _PE, "rule": "R3", "find": "    state = checkpointer.restore(path, target_state)", "replace": "    state = checkpointer.restore(\"/tmp/checkpoint\", target_state)"},
     {"id": "c19-restore-params-rest-from-template", "file": _PE, "rule": "R3", "find": "    graphdef, target_state = nnx.split(model)\n    state = checkpointer.restore(path, target_state)\n    return nnx.merge(graphdef, state)",
      "replace": "    graphdef, params, rest = nnx.split(model, nnx.Param, ...)\n    params = checkpointer.restore(path, params)\n    return nnx.merge(graphdef, params, rest)"},
+    {"id": "c19-getstate-truncates-at-cursor-via-locals", "file": _F, "rule": "R1", "nth": 1, "find": "        d = dict(self.__dict__)\n        del d[\"Batch\"]\n        return d\n\n    def __setstate__(self, d):\n        self.__dict__.update(d)\n",
+     "replace": "        d = dict(self.__dict__)\n        del d[\"Batch\"]\n        cursor = self.insert_idx\n        rows = cursor\n        d[\"buffer\"] = {name: column[:rows].copy() for name, column in self.buffer.items()}\n        return d\n\n    def __setstate__(self, d):\n        self.__dict__.update(d)\n        self.buffer = OrderedDict((k, np.concatenate((v, np.empty((self.buffer_size - len(v),) + v.shape[1:], dtype=v.dtype)))) for k, v in self.buffer.items())\n"},
+    {"id": "c19-priority-buffer-drops-last-indices", "file": _F, "rule": "R1-pickling-symmetry", "find": _PB_END,
+     "replace": _PB_END + "\n    def __getstate__(self):\n        state = self.__dict__.copy()\n        state.pop(\"sampled_indices\")\n        return state\n\n    def __setstate__(self, state):\n        vars(self).update(state)\n        self.sampled_indices = np.empty(0, dtype=int)\n"},
+    {"id": "c19-priority-buffer-drops-running-max", "file": _F, "rule": "R1-pickling-symmetry", "find": _PB_END,
+     "replace": _PB_END + "\n    def __getstate__(self):\n        d = {k: v for k, v in self.__dict__.items() if k != \"max_priority\"}\n        return d\n\n    def __setstate__(self, d):\n        self.__dict__.update(d)\n        self.max_priority = 1.0\n"},
+    {"id": "c19-subtrajectory-drops-episode-counter", "file": _F, "rule": "R1-pickling-symmetry", "nth": 1, "find": "        d = dict(self.__dict__)\n        del d[\"Batch\"]\n        return d\n\n    def __setstate__(self, d):\n        self.__dict__.update(d)\n        self.Batch = namedtuple(\"Batch\", self.buffer)\n",
+     "replace": "        d = dict(self.__dict__)\n        del d[\"Batch\"]\n        del d[\"episode_timesteps\"]\n        return d\n\n    def __setstate__(self, d):\n        self.__dict__.update(d)\n        self.Batch = namedtuple(\"Batch\", self.buffer)\n        self.episode_timesteps = 0\n"},
+    {"id": "c19-priority-buffer-setstate-clears-last-indices", "file": _F, "rule": "R1-pickling-symmetry", "find": _PB_END,
+     "replace": _PB_END + "\n    def __getstate__(self):\n        return dict(self.__dict__)\n\n    def __setstate__(self, d):\n        self.__dict__.update(d)\n        self.sampled_indices = np.empty(0, dtype=int)\n"},
 ]
 BENIGN = [
     {"id": "c19-b-getstate-pop", "file": _F, "nth": 0, "find": "        d = dict(self.__dict__)\n        del d[\"Batch\"]\n        return d", "replace": "        d = dict(self.__dict__)\n        d.pop(\"Batch\")\n        return d"},
@@ -1163,4 +1604,18 @@ BENIGN = [
     {"id": "c19-b-restore-keywords-abstract-target", "file": _PE, "find": "    graphdef, target_state = nnx.split(model)\n    state = checkpointer.restore(path, target_state)\n    return nnx.merge(graphdef, state)",
      "replace": "    template = model\n    graphdef, target_state = nnx.split(template)\n    abstract = jax.tree.map(ocp.utils.to_shape_dtype_struct, target_state)\n    directory = path\n    state = checkpointer.restore(directory=directory, target=abstract)\n    restored = nnx.merge(graphdef, state)\n    return restored"},
     {"id": "c19-b-restore-state-call", "file": _PE, "find": "    graphdef, target_state = nnx.split(model)\n    state = checkpointer.restore(path, target_state)", "replace": "    graphdef = nnx.graphdef(model)\n    state = checkpointer.restore(path, nnx.state(model))"},
+    {"id": "c19-b-getstate-storage-through-local", "file": _F, "nth": 0, "find": "        d = dict(self.__dict__)\n        del d[\"Batch\"]\n        return d", "replace": "        d = dict(self.__dict__)\n        storage = self.buffer\n        n_valid = self.current_len\n        assert n_valid <= self.buffer_size\n        d[\"buffer\"] = storage\n        del d[\"Batch\"]\n        return d"},
+    {"id": "c19-b-scratch-dropped-private-helpers", "file": _F, "edits": [
+        ("        self.sampled_indices = np.empty(0, dtype=int)\n", "        self.sampled_indices = np.empty(0, dtype=int)\n        self._cumsum = None\n"),
+        ("        probabilities = np.cumsum(priority)\n        random_uniforms = rng.uniform(0, 1, size=batch_size) * probabilities[-1]\n        self.sampled_indices = np.searchsorted(probabilities, random_uniforms)",
+         "        self._accumulate(priority)\n        self.sampled_indices = self._draw(rng, batch_size)"),
+        (_PB_END, _PB_END + "\n    def _accumulate(self, priority):\n        self._cumsum = np.cumsum(priority)\n\n    def _draw(self, rng, batch_size):\n        random_uniforms = rng.uniform(0, 1, size=batch_size) * self._cumsum[-1]\n        return np.searchsorted(self._cumsum, random_uniforms)\n\n    def __getstate__(self):\n        d = dict(self.__dict__)\n        del d[\"_cumsum\"]\n        return d\n\n    def __setstate__(self, d):\n        self.__dict__.update(d)\n        self._cumsum = None\n")]},
+    {"id": "c19-b-constant-dropped-and-rebuilt", "file": _F, "edits": [
+        ("        self.sampled_indices = np.empty(0, dtype=int)\n", "        self.sampled_indices = np.empty(0, dtype=int)\n        self._eps = np.finfo(float).eps\n"),
+        ("        random_uniforms = rng.uniform(0, 1, size=batch_size) * probabilities[-1]\n", "        random_uniforms = rng.uniform(0, 1, size=batch_size) * (probabilities[-1] + 0 * self._eps)\n"),
+        (_PB_END, _PB_END + "\n    def __getstate__(self):\n        d = dict(self.__dict__)\n        del d[\"_eps\"]\n        return d\n\n    def __setstate__(self, d):\n        self.__dict__.update(d)\n        self._eps = np.finfo(float).eps\n")]},
+    {"id": "c19-b-lazy-total-dropped", "file": _F, "edits": [
+        ("        self.sampled_indices = np.empty(0, dtype=int)\n", "        self.sampled_indices = np.empty(0, dtype=int)\n        self._total = None\n"),
+        ("        self.priority[insert_idx] = self.max_priority\n", "        self.priority[insert_idx] = self.max_priority\n        self._total = None\n"),
+        (_PB_END, _PB_END + "\n    def total(self, current_len):\n        if self._total is None:\n            self._total = float(np.sum(self.priority[:current_len]))\n        return self._total\n\n    def __getstate__(self):\n        d = dict(self.__dict__)\n        del d[\"_total\"]\n        return d\n\n    def __setstate__(self, d):\n        self.__dict__.update(d)\n        self._total = None\n")]},
 ]
